@@ -257,12 +257,9 @@ class SimulationAlgorithm(BaseSimulationAlgorithm):
             self.param_study["patient_number"] = df.groupby("ID").size().shape[0]
 
         if self.visit_type == VisitType.RANDOM:
-            if (
-                self.param_study["distance_visit_mean"] <= 0
-                and self.param_study["distance_visit_std"] <= 0
-            ):
+            if self.param_study["distance_visit_mean"] <= 0:
                 raise LeaspyAlgoInputError(
-                    "Distance visit mean (distance_visit_mean) and distance visit std need to be positive"
+                    "Distance visit mean (distance_visit_mean) needs to be positive"
                 )
 
     ## --- SET PARAMETERS ---
